@@ -167,19 +167,21 @@ def main():
     ck = Check("C08")
     if ck.replay:
         body = json.load(open(os.path.join(VERIF, ck.replay) if not os.path.isabs(ck.replay) else ck.replay))
-        run_case(ck, body["case"])
+        ck.guard(run_case, ck, body["case"])
         ck.finish(rule="replay of one recorded case")
     ck.lean_obligations("CvProps.C08", THEOREMS)
     for case in json.load(open(os.path.join(VERIF, "harness", "corpus", "C08.json"))):
-        run_case(ck, case)
+        ck.guard(run_case, ck, case)
         ck.count("corpus")
     for _ in range(110 if not ck.thorough else 3000):
         if ck.enough():
             break
-        run_case(ck, gen_case(ck))
+        ck.guard(run_case, ck, gen_case(ck))
     ck.assumptions = ["scipy coo_array and networkx are modelled, not verified (compared with the dense matrix / edge list)", "hash injective on the orbit"]
     ck.finish(rule="generated definitions with small orbits (permutation and matrix, inverse-closed or not) x encodings x completed / early-stopped (max_diameter 1..ecc); expected edge multiset computed from the Spec distance classes and plain-Python generator action")
 
 
 if __name__ == "__main__":
-    main()
+    from cv.core import run_main
+
+    run_main(main)
